@@ -6,7 +6,7 @@ from props import _family as F
 PROOF_MODULES = ['Jwt.Props.C14']
 PROP_MODULES = ['Jwt.Props.C14']
 PROP_FILES = ['Jwt/Props/C14.lean']
-GENERATED_FACT_THEOREMS = 4
+GENERATED_FACT_THEOREMS = 5
 CHECKER_CMD = "cd lean && lake build Jwt.Props.C14 && lake env lean <generated #print axioms file>"
 LEVEL_TEXT = ('Lean theorems: verify returns non-zero iff the flag is set afterwards, flag => message, success => clean, from every prior state; setkey refusal flags with message; generate returns NULL iff the flag is set with a message. Tied to the code by every failure cause x prior error state (reuse sequences) and by the C14 contract checked on every verify operation of the matrix.')
 ASSUMPTIONS = F.COMMON_ASSUME + []
